@@ -466,6 +466,9 @@ class Executor:
             # dest is an enum but the head does not name one of its variants
             raise Unsupported(f"aggregate {text} for enum type {dest_ty}")
         o = Obj(dest_ty)
+        if head.startswith("{coroutine@"):
+            # a freshly created `async fn` body: state 0 (unresumed), upvars in declaration order
+            o.discr = z3.BitVecVal(0, 32)
         for i, v in enumerate(ops):
             o.fields[(None, i)] = Cell(v)
         if names:
@@ -562,7 +565,51 @@ class Executor:
                     self.enter(s2, f2, ret)
                     res.append(s2)
                 return res
+        # default for code of the crate under analysis that no contract abstracts: execute its real MIR body
+        fn = self.auto_target(key, callee, argv)
+        if fn is not None:
+            if len(st.frames) >= self.max_depth:
+                raise Inconclusive("inline depth bound exceeded at " + key)
+            cell = None
+            if dest is not None:
+                cell, _ = self.resolve(st, fr, dest, for_write=True)
+            nf = Frame(fn, cell, ret)
+            for (idx, ty), v in zip(fn.args, argv):
+                nf.locals[idx] = Cell(v)
+            self.functions_used.add(fn.name)
+            self.auto_inlined.add(fn.name)
+            st.frames.append(nf)
+            return [st]
         raise Inconclusive(f"unmodelled callee: {key}   (raw: {callee})")
+
+    auto_inlined = set()
+
+    def auto_target(self, key, callee, argv):
+        """The unique MIR function of the dump that `callee` denotes, or None. Methods are matched by name and by the self
+        type appearing in the first parameter; `<{async fn body of T::f()} as Future>::poll` is the coroutine body
+        `..::f::{closure#0}`."""
+        raw = callee.strip()
+        m = re.search(r"async fn body of (.+?)::(\w+)(?:<[^()]*>)?\(\)\} as [\w:]*Future>::poll", raw)
+        if m:
+            name = m.group(2)
+            ty_name = strip_generics(m.group(1)).split("::")[-1]
+            hits = [f for n, f in self.fns.items() if n.endswith(f"::{name}::{{closure#0}}") and f.args
+                    and f"::{name}" in f.args[0][1] and "async fn body of" in f.args[0][1] and ty_name in f.args[0][1]]
+            return hits[0] if len(hits) == 1 else None
+        if " as " in key or key.startswith("{"):
+            return None
+        segs = key.split("::")
+        if len(segs) < 2:
+            return None
+        name, ty_name = segs[-1], segs[-2]
+        if ty_name in ("Option", "Result", "Poll", "Vec", "Arc", "Box", "String", "Pin", "Cow") or not re.match(r"^\w+$", name):
+            return None
+        cands = [f for n, f in self.fns.items() if n.endswith("::" + name) and not n.startswith("const:") and "{closure" not in n]
+        hits = [f for f in cands if f.args and re.search(r"\b" + re.escape(ty_name) + r"\b", f.args[0][1]) and len(f.args) == len(argv)]
+        if len(hits) != 1:
+            # associated function without self: the type must show in the return type
+            hits = [f for f in cands if len(f.args) == len(argv) and re.search(r"\b" + re.escape(ty_name) + r"\b", f.locals.get(0, ""))]
+        return hits[0] if len(hits) == 1 else None
 
     def combinator(self, st, fr, dest, key, argv, dest_ty, ret):
         """Option::map, Result::map_err, Poll<Result>::map_err ... with a closure (or function item) argument: fork on
